@@ -544,6 +544,121 @@ theorem good_probes_close (b : Brk Hist) (cs : List (Nat × Nat)) (hh : b.st = .
         exact ih'.2 hne (by omega)
 
 
+/-! ## 5c. open ⇒ rejected until the deadline, along whole histories -/
+
+section history
+variable {W : Type}
+
+/-- breaker `k` of resource `res` is open with deadline `D` -/
+def OpenUntil (k : Nat) (res : String) (D : Nat) (l : List (Brk W)) : Prop :=
+  ∃ b ∈ l, b.id = k ∧ b.rule.res = res ∧ b.st = .opened ∧ b.nextRetry = D
+
+theorem checkPass_keeps_other (res : String) (now : Nat) (l : List (Brk W)) (b : Brk W) (hb : b ∈ l)
+    (hne : b.rule.res ≠ res) : b ∈ (checkPass res now l).1.map (·.1) := by
+  induction l with
+  | nil => cases hb
+  | cons c cs ih =>
+    simp only [checkPass]
+    rcases List.mem_cons.mp hb with rfl | hb'
+    · rw [if_neg hne]; simp
+    · by_cases hr0 : c.rule.res = res
+      · rw [if_pos hr0]
+        by_cases hp : (tryPass c now).2.1 = true
+        · rw [if_pos hp]
+          simp only [List.map_cons, List.mem_cons]
+          exact Or.inr (ih hb')
+        · rw [if_neg hp]
+          simp only [List.map_cons, List.mem_cons, List.map_map]
+          right
+          simpa [Function.comp_def] using hb'
+      · rw [if_neg hr0]
+        simp only [List.map_cons, List.mem_cons]
+        exact Or.inr (ih hb')
+
+theorem completeAll_keeps_open (ops : Rule → WinOps W) (res' : String) (now rt : Nat) (err : Bool) (l : List (Brk W))
+    (k : Nat) (res : String) (D : Nat) (h : OpenUntil k res D l) :
+    OpenUntil k res D (completeAll ops res' now rt err l).1 := by
+  obtain ⟨b, hb, h1, h2, h3, h4⟩ := h
+  induction l with
+  | nil => cases hb
+  | cons c cs ih =>
+    simp only [completeAll]
+    rcases List.mem_cons.mp hb with rfl | hb'
+    · split_ifs
+      · obtain ⟨e1, e2, _⟩ := onComplete_walk ops b now rt err
+        obtain ⟨o1, o2, _, _⟩ := open_ignores_completion ops b now rt err h3
+        exact ⟨_, List.mem_cons_self .., by rw [e1]; exact h1, by rw [e2]; exact h2, o1, by rw [o2]; exact h4⟩
+      · exact ⟨b, List.mem_cons_self .., h1, h2, h3, h4⟩
+    · obtain ⟨b', hb'', r⟩ := ih hb'
+      split_ifs
+      · exact ⟨b', List.mem_cons_of_mem _ hb'', r⟩
+      · exact ⟨b', List.mem_cons_of_mem _ hb'', r⟩
+
+/-- one op before the deadline: the breaker stays open with the same deadline, and an entry to its
+    resource is rejected -/
+theorem step_keeps_open (ops : Rule → WinOps W) (s : Sys W) (o : Op) (k : Nat) (res : String) (D : Nat)
+    (h : OpenUntil k res D s.brs) (hnow : s.now < D) :
+    OpenUntil k res D (step ops s o).1.brs ∧ (∀ id, o = .entry id res → ∃ j, (step ops s o).2.dec = some (some j)) := by
+  cases o with
+  | clock t => exact ⟨h, fun id hid => by cases hid⟩
+  | entry id res' =>
+    obtain ⟨b, hb, h1, h2, h3, h4⟩ := h
+    simp only [step]
+    by_cases hres : res' = res
+    · subst hres
+      obtain ⟨hblk, hsame⟩ := open_blocks_resource s id res' b hb h2 h3 (by rw [h4]; exact hnow)
+      rw [hsame]
+      exact ⟨⟨b, hb, h1, h2, h3, h4⟩, fun _ _ => hblk⟩
+    · refine ⟨?_, fun id' hid => by cases hid; exact absurd rfl hres⟩
+      rcases (entry_pass_iff s id res').2 with hp | ⟨j, hj⟩
+      · unfold doEntry at hp ⊢
+        dsimp only at hp ⊢
+        cases hd : (checkPass res' s.now s.brs).2.1 with
+        | none =>
+          dsimp only
+          exact ⟨b, checkPass_keeps_other res' s.now s.brs b hb (by rw [h2]; exact fun e => hres e.symm), h1, h2, h3, h4⟩
+        | some j => rw [hd] at hp; simp at hp
+      · rw [blocked_entry_preserves_state s id res' j hj]
+        exact ⟨b, hb, h1, h2, h3, h4⟩
+  | exit id err =>
+    refine ⟨?_, fun id' hid => by cases hid⟩
+    simp only [step, doExit]
+    cases hf : s.live.find? (fun x => decide (x.id = id)) with
+    | none => exact h
+    | some e => exact completeAll_keeps_open ops e.res s.now _ err s.brs k res D h
+
+theorem step_now (ops : Rule → WinOps W) (s : Sys W) (o : Op) :
+    (step ops s o).1.now = match o with | .clock t => t | _ => s.now := by
+  cases o with
+  | clock t => rfl
+  | entry id res => simp only [step, doEntry]; split <;> rfl
+  | exit id err => simp only [step, doExit]; split <;> rfl
+
+/-- **open_rejects_until (history form).**  Once a breaker of a resource is open with deadline `D`, then
+    along *any* continuation whose clock readings stay below `D` — requests to this or other resources,
+    completions of stragglers with or without errors, probes and rollbacks of other breakers — every request
+    to the resource is rejected with a circuit-breaking block, and the breaker is still open with the same
+    deadline at the end. -/
+theorem open_rejects_until_history (ops : Rule → WinOps W) (s : Sys W) (os : List Op) (k : Nat) (res : String) (D : Nat)
+    (h : OpenUntil k res D s.brs) (hnow : s.now < D) (hclk : ∀ t, Op.clock t ∈ os → t < D) :
+    OpenUntil k res D (run ops s os).1.brs ∧
+      List.Forall₂ (fun o out => ∀ id, o = Op.entry id res → ∃ j, out.dec = some (some j)) os (run ops s os).2 := by
+  induction os generalizing s with
+  | nil => exact ⟨h, List.Forall₂.nil⟩
+  | cons o os ih =>
+    obtain ⟨h1, h2⟩ := step_keeps_open ops s o k res D h hnow
+    have hnow' : (step ops s o).1.now < D := by
+      rw [step_now]
+      cases o with
+      | clock t => exact hclk t (List.mem_cons_self ..)
+      | entry id r => exact hnow
+      | exit id e => exact hnow
+    obtain ⟨i1, i2⟩ := ih (step ops s o).1 h1 hnow' (fun t ht => hclk t (List.mem_cons_of_mem _ ht))
+    simp only [run]
+    exact ⟨i1, List.Forall₂.cons h2 i2⟩
+
+end history
+
 /-! ## 6. non-vacuity: a concrete history on the code-shaped machine (evaluated by `decide`) -/
 
 /-- error-ratio-like rule: trips when `2·bad ≥ total`, 2 buckets of 500 ms, timeout 100 ms -/
